@@ -37,3 +37,319 @@ package wire
 //@ func parseStreamsBlockedFrame
 //@   ensures [range-iff] iff(result2 == nil, len(b) > 0 && len(b) >= quicvarint.plen(b[0]) && quicvarint.vdec(b) <= 1152921504606846976)
 //@   ensures [value] implies(result2 == nil, uint64(result0.StreamLimit) == quicvarint.vdec(b) && result1 == quicvarint.plen(b[0]))
+
+// ---------------- CRYPTO ----------------
+//@ pred (f *CryptoFrame) valid() = 0 <= f.Offset && f.Offset <= 4611686018427387903
+
+//@ func (f *CryptoFrame) Length
+//@   props C08 C09
+//@   arith bv
+//@   requires f.valid()
+//@   ensures [flen] result == 1 + quicvarint.vlen(uint64(f.Offset)) + quicvarint.vlen(uint64(len(f.Data))) + len(f.Data)
+//@   modifies nothing
+
+//@ func (f *CryptoFrame) Append
+//@   props C08 C09
+//@   arith bv
+//@   requires f.valid()
+//@   ensures [flen] result1 == nil && len(result0) == len(b) + 1 + quicvarint.vlen(uint64(f.Offset)) + quicvarint.vlen(uint64(len(f.Data))) + len(f.Data)
+//@   modifies b[*]
+
+//@ func (f *CryptoFrame) MaxDataLen
+//@   props C08 C09 C10
+//@   arith bv
+//@   requires f.valid() && 0 <= maxSize && maxSize <= 16383
+//@   let hdr = 1 + quicvarint.vlen(uint64(f.Offset))
+//@   ensures [fits]  implies(result > 0, hdr + quicvarint.vlen(uint64(result)) + result <= maxSize)
+//@   ensures [zero]  iff(result == 0, maxSize <= hdr + 1)
+//@   ensures [max]   implies(result > 0, hdr + quicvarint.vlen(uint64(result + 1)) + result + 1 > maxSize || result + 1 > 4611686018427387903)
+//@   ensures [nonneg] result >= 0
+//@   modifies nothing
+
+//@ func parseCryptoFrame
+//@   props C08
+//@   arith bv
+//@   ensures [consumed] implies(result2 == nil, result0 != nil && 2 <= result1 && result1 <= len(b))
+//@   ensures [on-error] implies(result2 != nil, result0 == nil && result1 == 0)
+//@   ensures [data] implies(result2 == nil, uint64(len(result0.Data)) <= uint64(len(b)) && result0.Offset >= 0)
+//@   modifies nothing
+
+// ---------------- STREAM ----------------
+//@ pred (f *StreamFrame) valid() = 0 <= f.StreamID && f.StreamID <= 4611686018427387903 && 0 <= f.Offset && f.Offset <= 4611686018427387903
+
+//@ spec sflen(sid int64, off int64, dlp bool, n int) int = 1 + quicvarint.vlen(uint64(sid)) + ite(off != 0, quicvarint.vlen(uint64(off)), 0) + ite(dlp, quicvarint.vlen(uint64(n)), 0) + n
+
+//@ func (f *StreamFrame) DataLen
+//@   props C08 C04
+//@   arith bv
+//@   ensures [len] result == len(f.Data)
+//@   ensures [range] 0 <= result && result <= 1099511627776
+//@   modifies nothing
+
+//@ func (f *StreamFrame) Length
+//@   props C08 C04
+//@   arith bv
+//@   requires f.valid()
+//@   ensures [flen] result == sflen(int64(f.StreamID), int64(f.Offset), f.DataLenPresent, len(f.Data))
+//@   modifies nothing
+
+//@ func (f *StreamFrame) Append
+//@   props C08
+//@   arith bv
+//@   requires f.valid()
+//@   ensures [empty] iff(result1 != nil, len(f.Data) == 0 && !f.Fin)
+//@   ensures [flen] implies(result1 == nil, len(result0) == len(b) + sflen(int64(f.StreamID), int64(f.Offset), f.DataLenPresent, len(f.Data)))
+//@   modifies b[*]
+
+//@ func (f *StreamFrame) MaxDataLen
+//@   props C08 C04
+//@   arith bv
+//@   requires f.valid() && 0 <= maxSize && maxSize <= 16383
+//@   let hdr = 1 + quicvarint.vlen(uint64(f.StreamID)) + ite(f.Offset != 0, quicvarint.vlen(uint64(f.Offset)), 0)
+//@   ensures [fits]   implies(result > 0, hdr + ite(f.DataLenPresent, quicvarint.vlen(uint64(result)), 0) + result <= maxSize)
+//@   ensures [max]    implies(result > 0, hdr + ite(f.DataLenPresent, quicvarint.vlen(uint64(result + 1)), 0) + result + 1 > maxSize)
+//@   ensures [nonneg] result >= 0
+//@   modifies nothing
+
+//@ func GetStreamFrame
+//@   trusted sync.Pool: returns an object satisfying the pool's invariant (cap(Data) == MaxPacketBufferSize, len 0, fromPool); see DESIGN §2.3
+//@   ensures result != nil && isfresh(result) && isfresh(result.Data) && len(result.Data) == 0 && cap(result.Data) == 1452
+//@   modifies nothing
+
+//@ func ParseStreamFrame
+//@   props C08 C03
+//@   arith bv
+//@   ensures [consumed] implies(result2 == nil, result0 != nil && 1 <= result1 && result1 <= len(b))
+//@   ensures [on-error] implies(result2 != nil, result0 == nil && result1 == 0)
+//@   ensures [bounds]   implies(result2 == nil, result0.Offset >= 0 && result0.Offset + len(result0.Data) <= 4611686018427387903 && result0.StreamID >= 0)
+//@   ensures [flags]    implies(result2 == nil, result0.Fin == (typ&1 > 0) && result0.DataLenPresent == (typ&2 > 0))
+//@   ensures [len]      implies(result2 == nil, uint64(len(result0.Data)) <= uint64(len(b)))
+//@   modifies nothing
+
+//@ func (f *StreamFrame) MaybeSplitOffFrame
+//@   props C04 C08
+//@   arith bv
+//@   requires f.valid() && 0 <= maxSize && maxSize <= 16383 && f.Offset + len(f.Data) <= 4611686018427387903 && len(f.Data) <= 1452
+//@   ensures [nosplit] implies(!result1, result0 == nil && f.Offset == old(f.Offset) && len(f.Data) == old(len(f.Data)))
+//@   ensures [toosmall] implies(result1 && result0 == nil, f.Offset == old(f.Offset) && len(f.Data) == old(len(f.Data)))
+//@   ensures [split-offsets] implies(result0 != nil, result0.Offset == old(f.Offset) && f.Offset == old(f.Offset) + len(result0.Data) && result0.StreamID == f.StreamID)
+//@   ensures [split-total]   implies(result0 != nil, len(result0.Data) + len(f.Data) == old(len(f.Data)) && len(result0.Data) > 0 && !result0.Fin)
+//@   ensures [split-fits]    implies(result0 != nil, sflen(int64(result0.StreamID), int64(result0.Offset), result0.DataLenPresent, len(result0.Data)) <= maxSize)
+//@   modifies f.Data, f.Offset, f.fromPool, f.Data[*]
+
+// ---------------- DATAGRAM ----------------
+//@ func (f *DatagramFrame) Length
+//@   props C08
+//@   arith bv
+//@   ensures [flen] result == 1 + len(f.Data) + ite(f.DataLenPresent, quicvarint.vlen(uint64(len(f.Data))), 0)
+//@   modifies nothing
+
+//@ func (f *DatagramFrame) Append
+//@   props C08
+//@   arith bv
+//@   ensures [flen] result1 == nil && len(result0) == len(b) + 1 + len(f.Data) + ite(f.DataLenPresent, quicvarint.vlen(uint64(len(f.Data))), 0)
+//@   modifies b[*]
+
+//@ func (f *DatagramFrame) MaxDataLen
+//@   props C08
+//@   arith bv
+//@   requires 0 <= maxSize && maxSize <= 16383
+//@   ensures [fits]   implies(result > 0, 1 + ite(f.DataLenPresent, quicvarint.vlen(uint64(result)), 0) + result <= maxSize)
+//@   ensures [max]    implies(result > 0, 1 + ite(f.DataLenPresent, quicvarint.vlen(uint64(result + 1)), 0) + result + 1 > maxSize)
+//@   ensures [nonneg] result >= 0
+//@   modifies nothing
+
+//@ func parseDatagramFrame
+//@   props C08
+//@   arith bv
+//@   ensures [consumed] implies(result2 == nil, result0 != nil && 0 <= result1 && result1 <= len(b))
+//@   ensures [on-error] implies(result2 != nil, result0 == nil && result1 == 0)
+//@   modifies nothing
+
+// ---------------- RESET_STREAM(_AT) ----------------
+//@ pred (f *ResetStreamFrame) valid() = 0 <= f.StreamID && f.StreamID <= 4611686018427387903 && f.ErrorCode <= 4611686018427387903 &&
+//@      0 <= f.FinalSize && f.FinalSize <= 4611686018427387903 && 0 <= f.ReliableSize && f.ReliableSize <= 4611686018427387903
+
+//@ func (f *ResetStreamFrame) Length
+//@   props C08
+//@   arith bv
+//@   requires f.valid()
+//@   ensures [flen] result == 1 + quicvarint.vlen(uint64(f.StreamID)) + quicvarint.vlen(uint64(f.ErrorCode)) + quicvarint.vlen(uint64(f.FinalSize)) + ite(f.ReliableSize > 0, quicvarint.vlen(uint64(f.ReliableSize)), 0)
+//@   modifies nothing
+
+//@ func (f *ResetStreamFrame) Append
+//@   props C08
+//@   arith bv
+//@   requires f.valid()
+//@   ensures [flen] result1 == nil && len(result0) == len(b) + 1 + quicvarint.vlen(uint64(f.StreamID)) + quicvarint.vlen(uint64(f.ErrorCode)) + quicvarint.vlen(uint64(f.FinalSize)) + ite(f.ReliableSize > 0, quicvarint.vlen(uint64(f.ReliableSize)), 0)
+//@   modifies b[*]
+
+//@ func parseResetStreamFrame
+//@   props C08
+//@   arith bv
+//@   ensures [consumed] implies(result2 == nil, result0 != nil && 3 <= result1 && result1 <= len(b))
+//@   ensures [on-error] implies(result2 != nil, result0 == nil && result1 == 0)
+//@   ensures [reliable-le-final] implies(result2 == nil, uint64(result0.ReliableSize) <= uint64(result0.FinalSize))
+//@   ensures [plain-zero] implies(result2 == nil && !isResetStreamAt, result0.ReliableSize == 0)
+//@   modifies nothing
+
+// ---------------- NEW_TOKEN ----------------
+//@ func (f *NewTokenFrame) Length
+//@   props C08
+//@   arith bv
+//@   ensures [flen] result == 1 + quicvarint.vlen(uint64(len(f.Token))) + len(f.Token)
+//@   modifies nothing
+//@ func (f *NewTokenFrame) Append
+//@   props C08
+//@   arith bv
+//@   ensures [flen] result1 == nil && len(result0) == len(b) + 1 + quicvarint.vlen(uint64(len(f.Token))) + len(f.Token)
+//@   modifies b[*]
+//@ func parseNewTokenFrame
+//@   props C08
+//@   arith bv
+//@   ensures [consumed] implies(result2 == nil, result0 != nil && 2 <= result1 && result1 <= len(b) && len(result0.Token) > 0)
+//@   ensures [on-error] implies(result2 != nil, result0 == nil && result1 == 0)
+//@   modifies nothing
+
+// ---------------- PATH_CHALLENGE / PATH_RESPONSE ----------------
+//@ func (f *PathChallengeFrame) Length
+//@   props C08
+//@   arith bv
+//@   ensures [flen] result == 9
+//@   modifies nothing
+//@ func (f *PathChallengeFrame) Append
+//@   props C08
+//@   arith bv
+//@   ensures [flen] result1 == nil && len(result0) == len(b) + 9
+//@   modifies b[*]
+//@ func parsePathChallengeFrame
+//@   props C08
+//@   arith bv
+//@   ensures [consumed] implies(result2 == nil, result0 != nil && result1 == 8 && result1 <= len(b))
+//@   ensures [on-error] implies(result2 != nil, result0 == nil && result1 == 0)
+//@   ensures [iff] iff(result2 == nil, len(b) >= 8)
+//@   modifies nothing
+//@ func (f *PathResponseFrame) Length
+//@   props C08
+//@   arith bv
+//@   ensures [flen] result == 9
+//@   modifies nothing
+//@ func (f *PathResponseFrame) Append
+//@   props C08
+//@   arith bv
+//@   ensures [flen] result1 == nil && len(result0) == len(b) + 9
+//@   modifies b[*]
+//@ func parsePathResponseFrame
+//@   props C08
+//@   arith bv
+//@   ensures [consumed] implies(result2 == nil, result0 != nil && result1 == 8 && result1 <= len(b))
+//@   ensures [on-error] implies(result2 != nil, result0 == nil && result1 == 0)
+//@   ensures [iff] iff(result2 == nil, len(b) >= 8)
+//@   modifies nothing
+
+// ---------------- CONNECTION_CLOSE ----------------
+//@ pred (f *ConnectionCloseFrame) valid() = f.ErrorCode <= 4611686018427387903 && f.FrameType <= 4611686018427387903
+//@ func (f *ConnectionCloseFrame) Length
+//@   props C08
+//@   arith bv
+//@   requires f.valid()
+//@   ensures [flen] result == 1 + quicvarint.vlen(f.ErrorCode) + ite(f.IsApplicationError, 0, quicvarint.vlen(f.FrameType)) + quicvarint.vlen(uint64(len(f.ReasonPhrase))) + len(f.ReasonPhrase)
+//@   modifies nothing
+//@ func (f *ConnectionCloseFrame) Append
+//@   props C08
+//@   arith bv
+//@   requires f.valid()
+//@   ensures [flen] result1 == nil && len(result0) == len(b) + 1 + quicvarint.vlen(f.ErrorCode) + ite(f.IsApplicationError, 0, quicvarint.vlen(f.FrameType)) + quicvarint.vlen(uint64(len(f.ReasonPhrase))) + len(f.ReasonPhrase)
+//@   modifies b[*]
+//@ func parseConnectionCloseFrame
+//@   props C08
+//@   arith bv
+//@   ensures [consumed] implies(result2 == nil, result0 != nil && 2 <= result1 && result1 <= len(b))
+//@   ensures [on-error] implies(result2 != nil, result0 == nil && result1 == 0)
+//@   modifies nothing
+
+// ---------------- ACK_FREQUENCY ----------------
+//@ func parseAckFrequencyFrame
+//@   props C08
+//@   arith bv
+//@   ensures [consumed] implies(result2 == nil, result0 != nil && 4 <= result1 && result1 <= len(b))
+//@   ensures [on-error] implies(result2 != nil, result0 == nil && result1 == 0)
+//@   ensures [delay-nonneg] implies(result2 == nil, result0.RequestMaxAckDelay >= 0)
+//@   modifies nothing
+
+// ---------------- ACK ----------------
+//@ extern (d time.Duration) Nanoseconds
+//@   ensures result == int64(d)
+//@   modifies nothing
+//@ extern (d time.Duration) Microseconds
+//@   ensures result == int64(d) / 1000
+//@   modifies nothing
+//@ extern (d time.Duration) Milliseconds
+//@   ensures result == int64(d) / 1000000
+//@   modifies nothing
+
+//@ pred (f *AckFrame) rangesValid() = len(f.AckRanges) >= 1 &&
+//@      forall(k, 0, len(f.AckRanges), 0 <= f.AckRanges[k].Smallest && f.AckRanges[k].Smallest <= f.AckRanges[k].Largest && f.AckRanges[k].Largest <= 4611686018427387903) &&
+//@      forall2(j, k, 0, len(f.AckRanges), f.AckRanges[k].Largest + 2 <= f.AckRanges[j].Smallest)
+//@ pred (f *AckFrame) valid() = f.rangesValid() && f.DelayTime >= 0 && f.ECT0 <= 4611686018427387903 && f.ECT1 <= 4611686018427387903 && f.ECNCE <= 4611686018427387903
+
+//@ spec agap(f *AckFrame, k int) uint64 = uint64(f.AckRanges[k-1].Smallest - f.AckRanges[k].Largest - 2)
+//@ spec alen(f *AckFrame, k int) uint64 = uint64(f.AckRanges[k].Largest - f.AckRanges[k].Smallest)
+//@ spec adelay(d int64) uint64 = uint64(d / 8000)
+
+// asum(f, k): bytes needed for ranges 1..k-1. Definitional: such a function exists for every frame, so requiring
+// sumDef() restricts no caller; it only names the sum so that Length and Append can be compared.
+//@ pred (f *AckFrame) sumDef() = ufi("asum", f, 1) == 0 &&
+//@      forall(k, 1, len(f.AckRanges), ufi("asum", f, k+1) == ufi("asum", f, k) + quicvarint.vlen(agap(f, k)) + quicvarint.vlen(alen(f, k)), ufi("asum", f, k))
+
+//@ spec aflen(f *AckFrame) int = 1 + quicvarint.vlen(uint64(f.AckRanges[0].Largest)) + quicvarint.vlen(adelay(int64(f.DelayTime))) + 1 +
+//@      quicvarint.vlen(alen(f, 0)) + ufi("asum", f, min(len(f.AckRanges), 64)) +
+//@      ite(f.ECT0 > 0 || f.ECT1 > 0 || f.ECNCE > 0, quicvarint.vlen(f.ECT0) + quicvarint.vlen(f.ECT1) + quicvarint.vlen(f.ECNCE), 0)
+
+//@ func encodeAckDelay
+//@   props C08 C07
+//@   requires delay >= 0
+//@   ensures [value] result == adelay(int64(delay))
+//@   modifies nothing
+
+//@ func (f *AckFrame) encodeAckRange
+//@   props C08 C07
+//@   requires 0 <= i && i < len(f.AckRanges) && f.rangesValid()
+//@   ensures [range] gap <= 4611686018427387903 && length <= 4611686018427387903
+//@   ensures [first] implies(i == 0, gap == 0 && length == alen(f, 0))
+//@   ensures [rest]  implies(i > 0, gap == agap(f, i) && length == alen(f, i))
+//@   modifies nothing
+
+//@ func (f *AckFrame) LargestAcked
+//@   props C08 C07 C06
+//@   requires len(f.AckRanges) >= 1
+//@   ensures [value] result == f.AckRanges[0].Largest
+//@   modifies nothing
+
+//@ func (f *AckFrame) LowestAcked
+//@   props C08 C07 C06
+//@   requires len(f.AckRanges) >= 1
+//@   ensures [value] result == f.AckRanges[len(f.AckRanges)-1].Smallest
+//@   modifies nothing
+
+//@ func (f *AckFrame) Length
+//@   props C08 C07
+//@   requires f.valid() && f.sumDef()
+//@   ensures [flen] result == aflen(f)
+//@   modifies nothing
+//@ loop (f *AckFrame) Length #0
+//@   invariant 1 <= i && i <= min(len(f.AckRanges), 64)
+//@   invariant 0 <= ufi("asum", f, i) && ufi("asum", f, i) <= 16*(i-1)
+//@   invariant length == 1 + quicvarint.vlen(uint64(f.AckRanges[0].Largest)) + quicvarint.vlen(adelay(int64(f.DelayTime))) + 1 + quicvarint.vlen(alen(f, 0)) + ufi("asum", f, i)
+
+//@ func (f *AckFrame) Append
+//@   props C08 C07
+//@   requires f.valid() && f.sumDef()
+//@   ensures [flen] result1 == nil && len(result0) == len(b) + aflen(f)
+//@   modifies b[*]
+//@ loop (f *AckFrame) Append #0
+//@   invariant 1 <= i && i <= numRanges && numRanges == min(len(f.AckRanges), 64)
+//@   invariant len(b) == len(old(b)) + 1 + quicvarint.vlen(uint64(f.AckRanges[0].Largest)) + quicvarint.vlen(adelay(int64(f.DelayTime))) + 1 + quicvarint.vlen(alen(f, 0)) + ufi("asum", f, i)
+//@   invariant samearray(b, old(b)) || isfresh(b)
+//@   invariant hasECN == (f.ECT0 > 0 || f.ECT1 > 0 || f.ECNCE > 0)
+//@   modifies old(b)[*]
